@@ -18,6 +18,12 @@ func init() {
 		{Name: "Unlock releases the manager lock before publishing the flag", Kill: true, Rule: "C14-GUARD", File: fMgr,
 			Old: "\tkmc.unlocked = true\n\treturn nil\n}", New: "\tkmc.mu.Unlock()\n\tkmc.unlocked = true\n\tkmc.mu.Lock()\n\treturn nil\n}"},
 
+		{Name: "Lock clears the flag in a defer registered before the mutex is taken (runs after the unlock)", Kill: true, Rule: "C14-GUARD", File: fMgr,
+			Old: "func (kmc *KeystoreManagerForPoC) Lock() {\n\tkmc.mu.Lock()\n\tdefer kmc.mu.Unlock()\n\n\tfor _, addrManager := range kmc.managedKeystores {\n\t\taddrManager.clearPrivKeys()\n\t}\n\tkmc.unlocked = false\n}",
+			New: "func (kmc *KeystoreManagerForPoC) Lock() {\n\tdefer func() {\n\t\tkmc.unlocked = false\n\t}()\n\tkmc.mu.Lock()\n\tdefer kmc.mu.Unlock()\n\n\tfor _, addrManager := range kmc.managedKeystores {\n\t\taddrManager.clearPrivKeys()\n\t}\n}"},
+		{Name: "Lock clears the flag in a defer registered after the deferred unlock (runs under the lock)", Kill: false, File: fMgr,
+			Old: "func (kmc *KeystoreManagerForPoC) Lock() {\n\tkmc.mu.Lock()\n\tdefer kmc.mu.Unlock()\n\n\tfor _, addrManager := range kmc.managedKeystores {\n\t\taddrManager.clearPrivKeys()\n\t}\n\tkmc.unlocked = false\n}",
+			New: "func (kmc *KeystoreManagerForPoC) Lock() {\n\tkmc.mu.Lock()\n\tdefer kmc.mu.Unlock()\n\tdefer func() {\n\t\tkmc.unlocked = false\n\t}()\n\n\tfor _, addrManager := range kmc.managedKeystores {\n\t\taddrManager.clearPrivKeys()\n\t}\n}"},
 		{Name: "Remarks with explicit unlock instead of defer", Kill: false, File: fAddrMgr,
 			Old: "\ta.mu.Lock()\n\tdefer a.mu.Unlock()\n\treturn a.remark", New: "\ta.mu.Lock()\n\tr := a.remark\n\ta.mu.Unlock()\n\treturn r"},
 		{Name: "ListAddresses additionally called under the manager lock", Kill: false, File: fMgr,
